@@ -4,10 +4,13 @@
 double nondet_double(void);
 int nondet_int(void);
 int main(void) {
-  /* bound: a lattice of operands - m1 = a/32, m2 = b/32 (0 <= a <= b <= 32), hue = c/96 (-32 <= c <= 128), every point */
+#ifndef LAT
+#define LAT 32
+#endif
+  /* bound: a lattice of operands - m1 = a/LAT, m2 = b/LAT (0 <= a <= b <= LAT), hue = c/(3 LAT) (-LAT <= c <= 4 LAT), every point */
   int a = nondet_int(), b = nondet_int(), c3 = nondet_int();
-  RS_ASSUME(a >= 0 && a <= b && b <= 32 && c3 >= -32 && c3 <= 128);
-  double m1 = (double)a / 32.0, m2 = (double)b / 32.0, h = (double)c3 / 96.0;
+  RS_ASSUME(a >= 0 && a <= b && b <= LAT && c3 >= -LAT && c3 <= 4 * LAT);
+  double m1 = (double)a / (double)LAT, m2 = (double)b / (double)LAT, h = (double)c3 / (3.0 * LAT);
   double r = KERNEL_hue_to_rgb(m1, m2, h);
   PROP(r >= m1 - 1e-12 && r <= m2 + 1e-12, "C15b: hue_to_rgb leaves [m1, m2]");
   double c = KERNEL_fuzzy_round(r * 255.0);
